@@ -153,7 +153,7 @@ func main() {
 	tier := os.Getenv("VERIF_TIER")
 	r := rand.New(rand.NewSource(seed*7919 + 17))
 	classes := []string{"plain", "forward", "streamfail", "cancel", "close", "staleepoch", "multiconn", "rebreak", "sendpanic", "staleasync",
-		"builder", "recvpanic", "failpanic", "twopools", "nonbatch", "asyncclose", "limitbatch", "limitstarve", "runloop", "collapse", "idle", "rcglue", "regen"}
+		"builder", "recvpanic", "failpanic", "twopools", "nonbatch", "asyncclose", "limitbatch", "limitstarve", "runloop", "collapse", "idle", "rcglue", "regen", "mixedexit"}
 	rounds := 8
 	if tier == "thorough" {
 		rounds = 100
